@@ -7,10 +7,12 @@
   `step`/`run` = application and Tendermint over several blocks with the +2 delay), which the
   `elect` correspondence engine compares with the real code on every run.
 
-  Where the code violates a clause of the property the full statement is kept in a comment, a
-  `_partial` theorem is proved under exactly the hypothesis the code forces, and a concrete
-  counterexample is proved by evaluation; the harness replays the same witness on the real
-  application (scripted histories of harness/apph/elect.go, known_findings.json).
+  Round 1 found six ways in which the code violated the property (known_findings.json, "fixed:"
+  lines for C10); they are repaired in /repo and the model follows the repaired code.  The former
+  counterexamples are kept as regression examples with the repaired outcome; the engine replays
+  the same histories on the real application (corpus/C10, scripted histories of
+  harness/apph/elect.go).  What the theorems still assume is said at each theorem; section 4
+  lists exactly what remains for Tendermint to accept every returned list.
 -/
 import OLP.Elect.Lemmas
 
@@ -147,11 +149,8 @@ theorem removal_only_last_active_once (inp inp' : Input) (a : Nat)
 /-- in the running example `b` (purged at 5) is not purged at 7 although it lost its seat -/
 example : guarded ex 20 = true ∧ ∀ p ∈ (elect ex).purgeW, p.1 ≠ 20 := by decide
 
-/-- no key twice.  FULL STATEMENT (false of the code): `((elect inp).updates.map (·.pub)).Nodup`
-    for the records of every reachable state.  STAKE does not bind `ValidatorPubKey` to
-    `ValidatorAddress` (S16), so two records may carry one key; the theorem needs the hypothesis
-    that they do not. -/
-theorem no_duplicate_keys_partial (inp : Input) (hn : (inp.recs.map (·.addr)).Nodup)
+/-- no key twice, given distinct keys among the records (the general form) -/
+theorem no_duplicate_keys_of_distinct_keys (inp : Input) (hn : (inp.recs.map (·.addr)).Nodup)
     (hk : (inp.recs.map (·.pub)).Nodup) : ((elect inp).updates.map (·.pub)).Nodup := by
   by_cases h : 1 < inp.height
   · have hperm := ((updates_perm inp h).map (·.pub))
@@ -168,8 +167,7 @@ theorem no_duplicate_keys_partial (inp : Input) (hn : (inp.recs.map (·.addr)).N
     have hP : ∀ r ∈ purged inp, r ∈ inp.recs := fun r hr =>
       runLoop_sound inp r (List.mem_append_right _ (mem_purged hr).1)
     refine ⟨?_, ?_, ?_⟩
-    · -- elected keys are distinct
-      have : (electedRecs inp).Nodup := by
+    · have : (electedRecs inp).Nodup := by
         have := hall.1
         unfold List.Nodup at this ⊢
         rw [List.pairwise_map] at this
@@ -191,25 +189,79 @@ theorem no_duplicate_keys_partial (inp : Input) (hn : (inp.recs.map (·.addr)).N
         (List.mem_map.mpr ⟨r1, (mem_purged hr2).1, rfl⟩) rfl
   · rw [elect_low inp (by omega)]; exact List.Pairwise.nil
 
-example : (ex.recs.map (·.pub)).Nodup := by decide
+/-- no key twice: a consequence of the key binding.  Since the repair STAKE only creates a record
+    whose key is the ed25519 key of the validator address (`Bound`; for the genesis records it is a
+    hypothesis on the genesis document, `GenesisOK`); `Inv.bound` (section 4) shows it holds for the
+    records of every reachable state. -/
+theorem no_duplicate_keys (addrOf : Nat → Nat) (inp : Input) (hn : (inp.recs.map (·.addr)).Nodup)
+    (hb : Bound addrOf inp.recs) : ((elect inp).updates.map (·.pub)).Nodup := by
+  apply no_duplicate_keys_of_distinct_keys inp hn
+  apply nodup_map_of_inj_on
+  · have := hn
+    unfold List.Nodup at this ⊢
+    rw [List.pairwise_map] at this
+    exact List.Pairwise.imp (fun hne e => hne (by rw [e])) this
+  · intro a ha b hb' e
+    have e2 : a.addr = b.addr := by rw [← hb a ha, ← hb b hb', e]
+    exact inj_on_of_nodup_map (·.addr) inp.recs hn a ha b hb' e2
 
-/-- counterexample to the full statement (S16; replayed by the engine's `script-foreign-pubkey`
-    history, where the real `UpdateWithChangeSet` answers "duplicate entry"): two records with one
+example : (ex.recs.map (·.pub)).Nodup ∧ Bound (· - 100) ex.recs := by
+  refine ⟨by decide, ?_⟩
+  intro r hr
+  simp only [ex, List.mem_cons, List.mem_nil_iff, or_false] at hr
+  rcases hr with rfl | rfl | rfl | rfl | rfl <;> rfl
+
+/-- the binding is needed (regression example of the repaired S16 defect, where a STAKE could
+    carry another validator's key; today only a genesis document can do this): two records with one
     key are both elected -/
 theorem duplicate_keys_possible :
     ∃ inp : Input, (inp.recs.map (·.addr)).Nodup ∧ ¬ ((elect inp).updates.map (·.pub)).Nodup :=
   ⟨{ height := 3, minSelf := 5, top := 4, recs := [⟨1, 77, 0, 8⟩, ⟨2, 99, 0, 12⟩, ⟨3, 77, 0, 10⟩]
      lastActive := [2, 3], malicious := [], purge := [], status := [] }, by decide, by decide⟩
 
+/-- nobody eligible: no updates at all — the last set is kept (repair of "never emptying the set") -/
+theorem nobody_elected_no_updates (inp : Input) (h : (elect inp).activeCount = 0) :
+    (elect inp).updates = [] ∧ (elect inp).purgeW = [] := by
+  by_cases hh : 1 < inp.height
+  · have hE : electedRecs inp = [] := by
+      rw [elect_activeCount inp hh] at h
+      cases hl : electedRecs inp with
+      | nil => rfl
+      | cons _ _ => rw [hl] at h; simp only [List.length_cons] at h; omega
+    obtain ⟨hp, hu⟩ := elect_nobody inp hh hE
+    exact ⟨hu, by rw [elect_purgeW inp hh, hp]; rfl⟩
+  · rw [elect_low inp (by omega)]; exact ⟨rfl, rfl⟩
+
+example : (elect { ex with minSelf := 100 }).activeCount = 0 := by decide
+
+/-- a record is deleted only when the previous version had no power, the validator did not vote in
+    the last commit, is not elected now, and its status has been inactive for more than two blocks -/
+theorem deletion_rule (inp : Input) (hn : (inp.recs.map (·.addr)).Nodup) (a : Nat)
+    (ha : a ∈ (elect inp).deleted) :
+    a ∉ inp.lastActive ∧ a ∉ (electedRecs inp).map (·.addr) ∧
+    (∃ r ∈ inp.recs, r.addr = a ∧ r.power ≤ 0) ∧
+    ∃ x, alookup a inp.status = some x ∧ x.active = false ∧ x.height + 2 < inp.height :=
+  deleted_facts inp hn a ha
+
+/-- non-vacuity: validator 50 unstaked everything, has been inactive since height 3, did not vote -/
+example : (elect { height := 7, minSelf := 5, top := 2, recs := [⟨10, 110, 0, 9⟩, ⟨50, 150, 0, 0⟩]
+                   lastActive := [10], malicious := [], purge := [(50, 3)]
+                   status := [(10, ⟨true, 2⟩), (50, ⟨false, 3⟩)], cur := [(10, 9), (50, 0)] }).deleted = [50] := by
+  decide
+
+/-- … and a stake of the same block keeps the record -/
+example : (elect { height := 7, minSelf := 5, top := 2, recs := [⟨10, 110, 0, 9⟩, ⟨50, 150, 0, 0⟩]
+                   lastActive := [10], malicious := [], purge := [(50, 3)]
+                   status := [(10, ⟨true, 2⟩), (50, ⟨false, 3⟩)], cur := [(10, 9), (50, 6)] }).deleted = [] := by
+  decide
+
 /-! ## 3. Frozen validators -/
 
-/-- FULL STATEMENT (false of the code): no positive update names a validator that is frozen in the
-    previous block's records.  `CheckMaliciousValidators` returns before it collects the frozen
-    records while `height <= BlockVotesDiff` (1000 in production), so inside the first vote window
-    the malicious set is empty.  Outside the window frozen and freshly flagged validators are in
-    the set, and by `positive_update_rule` no positive update names them. -/
-theorem frozen_not_elected_partial (inp : Input) (vd : Int) (frozen flagged : List Nat)
-    (hm : inp.malicious = maliciousSet inp.height vd frozen flagged) (hvd : vd < inp.height)
+/-- no positive update names a validator that is frozen in the previous block's records or was
+    flagged in this BeginBlock (full strength since the repair: the frozen records are loaded
+    before the height check of `CheckMaliciousValidators`) -/
+theorem frozen_not_elected (inp : Input) (frozen flagged : List Nat)
+    (hm : inp.malicious = maliciousSet frozen flagged)
     (u : Upd) (hu : u ∈ (elect inp).updates) (hp : 0 < u.power) :
     ∃ r ∈ inp.recs, r.pub = u.pub ∧ u.power = r.power ∧ r.addr ∉ frozen ∧ r.addr ∉ flagged := by
   obtain ⟨r, hr, e1, _, _, hmal, e2⟩ := positive_update_rule inp u hu hp
@@ -219,33 +271,36 @@ theorem frozen_not_elected_partial (inp : Input) (vd : Int) (frozen flagged : Li
     apply hmal
     rw [hm]
     unfold maliciousSet
-    have : ¬ inp.height ≤ vd := by omega
-    simp [this, hf]
+    simp [hf]
 
-/-- counterexample inside the window (replayed by `script-frozen-early`): height 6, window 50,
-    validator 40 frozen — and elected -/
-theorem frozen_elected_inside_first_window :
-    ∃ inp : Input, ∃ frozen : List Nat, inp.malicious = maliciousSet inp.height 50 frozen [] ∧
-      40 ∈ frozen ∧ (⟨140, 0, 16⟩ : Upd) ∈ (elect inp).updates :=
-  ⟨{ height := 6, minSelf := 5, top := 4, recs := [⟨10, 110, 0, 10⟩, ⟨40, 140, 0, 16⟩]
-     lastActive := [10, 40], malicious := [], purge := [], status := [] }, [40], by decide, by decide, by decide⟩
+/-- regression example (`script-frozen-early`, formerly elected inside the first vote window):
+    height 6, validator 40 frozen — only validator 10 is named -/
+example : (elect { height := 6, minSelf := 5, top := 4, recs := [⟨10, 110, 0, 10⟩, ⟨40, 140, 0, 16⟩]
+                   lastActive := [10, 40], malicious := maliciousSet [40] [], purge := [], status := [] }).updates
+    = [⟨110, 0, 10⟩, ⟨140, 0, 0⟩] := by decide
 
-/-! ## 4. Tendermint accepts the list -/
+/-! ## 4. Tendermint accepts the list
 
-/-- FULL STATEMENT (false of the code): for the records of every reachable state and every set `s`
-    that contains the validators of the last commit not purged in the last two blocks,
-    `TM.apply s (tmChanges addrOf (elect inp).updates)` is `.ok`.  The code forces four hypotheses:
-      * `Bound` / distinct keys / key type ed25519 — STAKE accepts any well-formed key (S16),
-      * `0 < activeCount` — nothing keeps the last eligible validator from leaving or being
-        frozen, and then every member is removed ("would result in empty set"),
-      * the total power bound — stake amounts are only bounded by the supply.
-    SINGLE BLOCK: under them the list is accepted and the new set is the old one with the elected
-    records written and the purged ones gone. -/
-theorem tm_accepts_single_block_partial (addrOf : Nat → Nat) (inp : Input) (s : TM.VSet)
+  What remains for `TM.apply` to accept every list the hook returns, exactly:
+    (G) the genesis document (`GenesisOK`): every genesis stake record carries the ed25519 key of
+        its own address, and every member of the genesis validator set has a stake record
+        (`InitChain` checks only the latter);
+    (H) three facts about the transaction handlers (`BlockOK.addrs/persist/keys`): records are
+        keyed by address, no handler deletes a record, a new record comes from a STAKE whose key
+        is the ed25519 key of the validator address and no writer changes the key of a record —
+        read off the code and monitored by the engine on every block
+        (`record-consensus-key-changed`, `unbound-consensus-key-staked`, the `del=` delta);
+    (M) `0 < MinSelfDelegationAmount` (an elected record has positive power);
+    (T) the total power stays within Tendermint's bound (stakes are bounded by the supply).
+  Nothing else: in particular not that somebody is elected (no updates then), and removals are
+  always members of the set they are applied to (`removals_name_members`). -/
+
+/-- SINGLE BLOCK: the list is accepted by a set that contains every validator the list removes;
+    the new set is the old one with the elected records written and the purged ones gone -/
+theorem tm_accepts_single_block (addrOf : Nat → Nat) (inp : Input) (s : TM.VSet)
     (h : 1 < inp.height)
     (hn : (inp.recs.map (·.addr)).Nodup) (hb : Bound addrOf inp.recs)
     (hkt : ∀ r ∈ inp.recs, r.ktype = 0) (hmin : 0 < inp.minSelf)
-    (hne : 0 < (elect inp).activeCount)
     (hin : ∀ r ∈ purged inp, (alookup r.addr s).isSome)
     (hs : ∀ x ∈ s, 0 ≤ x.2)
     (htot : TM.total s + TM.sumPow (tmChanges addrOf (elect inp).updates) ≤ TM.maxTotal) :
@@ -253,105 +308,137 @@ theorem tm_accepts_single_block_partial (addrOf : Nat → Nat) (inp : Input) (s 
       (∀ r ∈ purged inp, alookup r.addr s' = none) ∧
       (∀ r ∈ electedRecs inp, alookup r.addr s' = some r.power) ∧
       (∀ k, k ∉ (electedRecs inp).map (·.addr) → k ∉ (purged inp).map (·.addr) → alookup k s' = alookup k s) :=
-  let ⟨s', ok, a, b, c, _⟩ := elect_tm_ok addrOf inp s h hn hb hkt hmin hne hin hs htot
+  let ⟨s', ok, a, b, c, _⟩ := elect_tm_ok' addrOf inp s h hn hb hkt hmin hin hs htot
   ⟨s', ok, a, b, c⟩
 
 /-- the running example in front of a set that holds the four voters -/
 example : TM.apply [(10, 9), (20, 7), (40, 8), (50, 4)] (tmChanges (· - 100) (elect ex).updates) =
     .ok [(10, 9), (20, 7), (40, 8)] := by decide
 
-/-- MULTI BLOCK.  `Inv` relates the purge heights to the three pending validator sets; it holds
-    after genesis, every accepted block preserves it, and with it the removals of a block always
-    name members of the set they are applied to ("never removing a validator that is not in the
-    set" holds without further hypothesis, `purged_in_next_set`).  For any history whose blocks
-    meet the side conditions (`BlockOK`: the forced hypotheses above, per block) Tendermint
-    accepts every list. -/
-theorem inv_after_genesis (g : TM.VSet) (hg : ∀ x ∈ g, 0 ≤ x.2) : Inv (genesisChain g) := inv_genesis g hg
+/-- MULTI BLOCK.  `Inv` (OLP/Elect/Lemmas.lean) ties the purge heights to the three pending sets,
+    says that every committed record carries the ed25519 key of its address, that a validator on
+    its way into the set has an active status, and that every member of a pending set has a
+    record.  It holds after block 1 given (G), and every block that meets (H), (M), (T) is
+    accepted and preserves it. -/
+theorem inv_after_genesis (addrOf : Nat → Nat) (g : TM.VSet) (recs : List Rec)
+    (hg : GenesisOK addrOf g recs) : Inv addrOf (startChain g recs) := inv_start addrOf g recs hg
 
-theorem removals_name_members (s : Chain) (b : BlockIn) (hI : Inv s) (h : 1 < s.next) :
-    ∀ r ∈ purged (inputOf s b), (alookup r.addr s.vN).isSome := purged_in_next_set s b hI h
+theorem removals_name_members (addrOf : Nat → Nat) (s : Chain) (b : BlockIn) (hI : Inv addrOf s) :
+    ∀ r ∈ purged (inputOf s b), (alookup r.addr s.vN).isSome := purged_in_next_set addrOf s b hI
 
-theorem tm_accepts_step_partial (addrOf : Nat → Nat) (s : Chain) (b : BlockIn) (hI : Inv s)
-    (hB : BlockOK addrOf s b) : ∃ s', step addrOf s b = .ok s' ∧ Inv s' :=
+theorem tm_accepts_step (addrOf : Nat → Nat) (s : Chain) (b : BlockIn) (hI : Inv addrOf s)
+    (hB : BlockOK addrOf s b) : ∃ s', step addrOf s b = .ok s' ∧ Inv addrOf s' :=
   let ⟨s', ok, hI', _⟩ := step_ok addrOf s b hI hB
   ⟨s', ok, hI'⟩
 
-theorem tm_accepts_all_partial (addrOf : Nat → Nat) (g : TM.VSet) (hg : ∀ x ∈ g, 0 ≤ x.2)
-    (bs : List BlockIn) (hS : SideAll addrOf (genesisChain g) bs) :
-    ∃ s', run addrOf (genesisChain g) bs = .ok s' ∧ Inv s' :=
-  run_ok addrOf bs _ (inv_genesis g hg) hS
+/-- every list of every history is accepted -/
+theorem tm_accepts_all (addrOf : Nat → Nat) (g : TM.VSet) (recs : List Rec)
+    (hg : GenesisOK addrOf g recs) (bs : List BlockIn) (hS : SideAll addrOf (startChain g recs) bs) :
+    ∃ s', run addrOf (startChain g recs) bs = .ok s' ∧ Inv addrOf s' :=
+  run_ok addrOf bs _ (inv_start addrOf g recs hg) hS
 
-/-- a three-validator chain, records as committed after blocks 1–3 (key = address + 100) -/
-def exBlocks : List BlockIn :=
-  [⟨[], [], 5, 2⟩,
-   ⟨[⟨1, 101, 0, 10⟩, ⟨2, 102, 0, 12⟩, ⟨3, 103, 0, 14⟩], [], 5, 2⟩,
-   ⟨[⟨1, 101, 0, 10⟩, ⟨2, 102, 0, 12⟩, ⟨3, 103, 0, 6⟩], [], 5, 2⟩,
-   ⟨[⟨1, 101, 0, 10⟩, ⟨2, 102, 0, 12⟩, ⟨3, 103, 0, 6⟩], [], 5, 2⟩]
+/-- in every reachable state the update list names no key twice -/
+theorem no_duplicate_keys_reachable (addrOf : Nat → Nat) (s : Chain) (b : BlockIn) (hI : Inv addrOf s) :
+    ((elect (inputOf s b)).updates.map (·.pub)).Nodup :=
+  no_duplicate_keys addrOf (inputOf s b) hI.addrs hI.bound
+
+/-- in every reachable state every member of a pending validator set has a stake record: the
+    deletion of records without power spares whoever is in, or on its way into, the set -/
+theorem members_keep_records (addrOf : Nat → Nat) (s : Chain) (hI : Inv addrOf s) (a : Nat)
+    (h : (alookup a s.vP).isSome ∨ (alookup a s.vC).isSome ∨ (alookup a s.vN).isSome) :
+    ∃ r ∈ s.recs, r.addr = a := hI.recd a h
+
+/-- … said about the deletion itself: a record deleted by a block belongs to none of the sets of
+    the next three blocks -/
+theorem deletion_spares_pending_validators (addrOf : Nat → Nat) (s s' : Chain) (b : BlockIn)
+    (hI : Inv addrOf s) (hB : BlockOK addrOf s b) (hs : step addrOf s b = .ok s') (a : Nat)
+    (ha : a ∈ (elect (inputOf s b)).deleted) :
+    (alookup a s'.vP).isNone ∧ (alookup a s'.vC).isNone ∧ (alookup a s'.vN).isNone := by
+  obtain ⟨s1, ok, hI', _, _, _, er, _⟩ := step_ok addrOf s b hI hB
+  rw [hs] at ok
+  cases ok
+  have hno : ¬ ∃ r ∈ s'.recs, r.addr = a := by
+    rintro ⟨r, hr, e⟩
+    rw [er] at hr
+    have := (List.mem_filter.mp hr).2
+    simp only [Bool.not_eq_true', List.contains_eq_mem, decide_eq_false_iff_not] at this
+    exact this (by rw [e]; exact ha)
+  refine ⟨?_, ?_, ?_⟩ <;> apply isNone_of_not_isSome <;> intro hh <;> apply hno
+  · exact hI'.recd a (Or.inl hh)
+  · exact hI'.recd a (Or.inr (Or.inl hh))
+  · exact hI'.recd a (Or.inr (Or.inr hh))
+
+/-- a three-validator chain (key = address + 100): records after block 1, then validator 3 drops
+    from 14 to 6 in block 2 -/
+def recsA : List Rec := [⟨1, 101, 0, 10⟩, ⟨2, 102, 0, 12⟩, ⟨3, 103, 0, 14⟩]
+def recsB : List Rec := [⟨1, 101, 0, 10⟩, ⟨2, 102, 0, 12⟩, ⟨3, 103, 0, 6⟩]
+def exBlocks : List BlockIn := [⟨recsB, [], 5, 2⟩, ⟨recsB, [], 5, 2⟩, ⟨recsB, [], 5, 2⟩]
 
 /-- non-vacuity: the history is accepted; validator 1 is purged at height 2 (top count 2), comes
-    back at height 3 when validator 3 dropped to 6, and validator 3 is purged at height 3 -/
-example : run (· - 100) (genesisChain [(1, 10), (2, 12), (3, 14)]) exBlocks =
-    .ok ⟨5, [(2, 12), (3, 14)], [(1, 10), (2, 12)], [(1, 10), (2, 12)], [(1, 2), (3, 3)],
-         [(3, ⟨false, 3⟩), (2, ⟨true, 2⟩), (1, ⟨true, 3⟩)]⟩ := by decide
+    back at height 3 when validator 3 has dropped to 6, and validator 3 is purged at height 3 -/
+example : (run (· - 100) (startChain [(1, 10), (2, 12), (3, 14)] recsA) exBlocks).toOption.map
+    (fun s => ([s.vP, s.vC, s.vN], s.purge)) =
+    some ([[(2, 12), (3, 14)], [(1, 10), (2, 12)], [(1, 10), (2, 12)]], [(1, 2), (3, 3)]) := by decide
 
-/-- counterexample "never emptying the set" (replayed by `script-all-below-min`, where the real
-    `UpdateWithChangeSet` answers "applying the validator changes would result in empty set"):
-    both validators drop below the minimum self delegation -/
-theorem empties_validator_set :
-    run id (genesisChain [(1, 10), (2, 10)])
-      [⟨[], [], 5, 4⟩, ⟨[⟨1, 1, 0, 10⟩, ⟨2, 2, 0, 10⟩], [], 5, 4⟩, ⟨[⟨1, 1, 0, 4⟩, ⟨2, 2, 0, 4⟩], [], 5, 4⟩]
-      = .error .emptySet := by decide
+/-- regression example "never emptying the set" (`script-all-below-min`; formerly every member was
+    removed and Tendermint answered "would result in empty set"): both validators drop below the
+    minimum self delegation — no updates, the set stays -/
+theorem all_below_minimum_keeps_the_set :
+    (run id (startChain [(1, 10), (2, 10)] [⟨1, 1, 0, 10⟩, ⟨2, 2, 0, 10⟩])
+      [⟨[⟨1, 1, 0, 4⟩, ⟨2, 2, 0, 4⟩], [], 5, 4⟩, ⟨[⟨1, 1, 0, 4⟩, ⟨2, 2, 0, 4⟩], [], 5, 4⟩]).toOption.map
+      (fun s => s.vN) = some [(1, 10), (2, 10)] := by decide
 
-/-- counterexample "no duplicate keys" at the chain level (S16, `script-foreign-pubkey`): record 3
-    carries the key of validator 1 -/
-theorem duplicate_key_rejected :
-    run id (genesisChain [(1, 10), (2, 12)])
-      [⟨[], [], 5, 4⟩, ⟨[⟨1, 1, 0, 10⟩, ⟨2, 2, 0, 12⟩], [], 5, 4⟩,
-       ⟨[⟨1, 1, 0, 10⟩, ⟨2, 2, 0, 12⟩, ⟨3, 1, 0, 8⟩], [], 5, 4⟩]
-      = .error .duplicate := by decide
+/-- (G) is needed: a genesis record carrying another validator's key is elected with it and
+    Tendermint answers "duplicate entry" (before the repair a STAKE could do the same) -/
+theorem unbound_genesis_key_rejected :
+    run id (startChain [(1, 10), (2, 12)] [⟨1, 1, 0, 10⟩, ⟨2, 2, 0, 12⟩, ⟨3, 1, 0, 8⟩])
+      [⟨[⟨1, 1, 0, 10⟩, ⟨2, 2, 0, 12⟩, ⟨3, 1, 0, 8⟩], [], 5, 4⟩] = .error .duplicate := by decide
 
-/-- counterexample: a secp256k1 consensus key (`script-secp-pubkey`; Tendermint: "is using pubkey
-    secp256k1, which is unsupported for consensus") -/
-theorem unsupported_key_type_rejected :
-    run id (genesisChain [(1, 10), (2, 12)])
-      [⟨[], [], 5, 4⟩, ⟨[⟨1, 1, 0, 10⟩, ⟨2, 2, 0, 12⟩], [], 5, 4⟩,
-       ⟨[⟨1, 1, 0, 10⟩, ⟨2, 2, 0, 12⟩, ⟨3, 3, 1, 8⟩], [], 5, 4⟩]
-      = .error .keyType := by decide
+/-- (G) is needed: a secp256k1 genesis key ("is using pubkey secp256k1, which is unsupported for
+    consensus") -/
+theorem non_ed25519_genesis_key_rejected :
+    run id (startChain [(1, 10), (2, 12)] [⟨1, 1, 0, 10⟩, ⟨2, 2, 0, 12⟩, ⟨3, 3, 1, 8⟩])
+      [⟨[⟨1, 1, 0, 10⟩, ⟨2, 2, 0, 12⟩, ⟨3, 3, 1, 8⟩], [], 5, 4⟩] = .error .keyType := by decide
 
 /-! ## 5. Convergence -/
 
-/-- FULL STATEMENT (false of the code): once the records stop changing, after five blocks the
-    three pending sets are exactly the election of those records.  The election re-emits every
-    elected validator in every block, and a member that lost its seat is removed as soon as the
-    guard allows — provided it still has a record: `GetEndBlockUpdate` deletes a record whose
-    power is 0 whether or not the validator is in (or on its way into) the set, and the purge loop
-    only sees validators that have a record.  Forced hypothesis: every member of the pending set
-    has a record (`hrec`), plus the per-block side conditions of section 4. -/
-theorem converges_within_5_partial (addrOf : Nat → Nat) (s0 : Chain) (b : BlockIn) (hI : Inv s0)
-    (h1 : 1 < s0.next) (hS : SideAll addrOf s0 [b, b, b, b, b])
-    (hrec : ∀ a, (alookup a s0.vN).isSome → ∃ r ∈ b.recs, r.addr = a) :
-    ∃ s5, run addrOf s0 [b, b, b, b, b] = .ok s5 ∧
-      ∀ a, alookup a s5.vP = electionMap b a ∧ alookup a s5.vC = electionMap b a ∧
-        alookup a s5.vN = electionMap b a :=
-  converge5 addrOf s0 b hI h1 hS hrec
+/-- once the records stop changing (five quiet blocks: no transaction touches a record, the hook
+    deletes none) the three pending sets are exactly the election of those records — from every
+    state that satisfies the invariant, i.e. every reachable one, provided somebody is eligible
+    (`hE`: Tendermint has no empty validator set; with nobody to elect the application keeps the
+    last set, `nobody_elected_no_updates`).  The former hypothesis "every member of the pending
+    set has a record" is now part of the invariant (`members_keep_records`). -/
+theorem converges_within_5 (addrOf : Nat → Nat) (s0 : Chain) (b : BlockIn) (hI : Inv addrOf s0)
+    (hS : QuietAll addrOf b s0 5) (hE : electionOf s0.recs b ≠ []) :
+    ∃ s5, run addrOf s0 [b, b, b, b, b] = .ok s5 ∧ s5.recs = s0.recs ∧
+      ∀ a, alookup a s5.vP = electionMap s0.recs b a ∧ alookup a s5.vC = electionMap s0.recs b a ∧
+        alookup a s5.vN = electionMap s0.recs b a :=
+  converge5 addrOf s0 b hI hS hE
 
-/-- non-vacuity: the example chain continued with constant records converges to {1 ↦ 10, 2 ↦ 12} -/
+/-- non-vacuity: the example chain continued with quiet blocks converges to {1 ↦ 10, 2 ↦ 12} -/
 example :
-    let b : BlockIn := ⟨[⟨1, 101, 0, 10⟩, ⟨2, 102, 0, 12⟩, ⟨3, 103, 0, 6⟩], [], 5, 2⟩
-    (run (· - 100) (genesisChain [(1, 10), (2, 12), (3, 14)]) (exBlocks ++ [b, b, b, b, b])).toOption.map
+    let b : BlockIn := ⟨recsB, [], 5, 2⟩
+    (run (· - 100) (startChain [(1, 10), (2, 12), (3, 14)] recsA) (exBlocks ++ [b, b, b, b, b])).toOption.map
       (fun s => [s.vP, s.vC, s.vN]) = some [[(1, 10), (2, 12)], [(1, 10), (2, 12)], [(1, 10), (2, 12)]] ∧
-    electionMap b 1 = some 10 ∧ electionMap b 2 = some 12 ∧ electionMap b 3 = none := by decide
+    electionMap recsB b 1 = some 10 ∧ electionMap recsB b 2 = some 12 ∧ electionMap recsB b 3 = none := by decide
 
-/-- counterexample (replayed by `script-stake-then-unstake-all`): validator 3 stakes 8 in block 2,
-    is elected at the end of block 3, unstakes everything in block 3; at the end of block 4 its
-    record has power 0: it is not among the voters yet, so nothing is purged, and the record is
-    deleted.  It enters the set at height 5 and, having no record, is never removed: ten quiet
-    blocks later it still votes with power 8 while the election of the records is {1, 2}. -/
-theorem unstaked_validator_stays_active :
-    let quiet : BlockIn := ⟨[⟨1, 1, 0, 10⟩, ⟨2, 2, 0, 12⟩], [], 5, 4⟩
-    (run id (genesisChain [(1, 10), (2, 12)])
-      ([⟨[], [], 5, 4⟩, quiet, ⟨[⟨1, 1, 0, 10⟩, ⟨2, 2, 0, 12⟩, ⟨3, 3, 0, 8⟩], [], 5, 4⟩,
-        ⟨[⟨1, 1, 0, 10⟩, ⟨2, 2, 0, 12⟩, ⟨3, 3, 0, 0⟩], [], 5, 4⟩] ++ List.replicate 10 quiet)).toOption.map
-      (fun s => s.vN) = some [(1, 10), (2, 12), (3, 8)] ∧ electionMap quiet 3 = none := by decide
+/-- regression example (`script-stake-then-unstake-all`; formerly the record was deleted at the end
+    of block 4 and the validator stayed in the set for ever): validator 3 stakes 8 in block 2, is
+    elected at the end of block 3, unstakes everything in block 3.  Its record is kept, it enters
+    the set at height 5, is purged at height 6 (gone from the set of block 8), and only at the end
+    of block 9 — inactive for more than two blocks and out of the last commit — the record is
+    deleted -/
+theorem unstaked_validator_is_purged_then_deleted :
+    let z0 : List Rec := [⟨1, 1, 0, 10⟩, ⟨2, 2, 0, 12⟩]
+    let z8 : BlockIn := ⟨[⟨1, 1, 0, 10⟩, ⟨2, 2, 0, 12⟩, ⟨3, 3, 0, 8⟩], [], 5, 4⟩
+    let zz : BlockIn := ⟨[⟨1, 1, 0, 10⟩, ⟨2, 2, 0, 12⟩, ⟨3, 3, 0, 0⟩], [], 5, 4⟩
+    (run id (startChain [(1, 10), (2, 12)] z0) [z8, zz, zz, zz, zz]).toOption.map
+      (fun s => ([s.vP, s.vC, s.vN], s.purge, s.recs.map (·.addr))) =
+      some ([[(1, 10), (2, 12), (3, 8)], [(1, 10), (2, 12), (3, 8)], [(1, 10), (2, 12)]], [(3, 6)], [1, 2, 3]) ∧
+    (run id (startChain [(1, 10), (2, 12)] z0) ([z8] ++ List.replicate 6 zz)).toOption.map
+      (fun s => ([s.vP, s.vC, s.vN], s.recs.map (·.addr))) =
+      some ([[(1, 10), (2, 12)], [(1, 10), (2, 12)], [(1, 10), (2, 12)]], [1, 2, 3]) ∧
+    (run id (startChain [(1, 10), (2, 12)] z0) ([z8] ++ List.replicate 7 zz)).toOption.map
+      (fun s => (s.next, s.recs.map (·.addr))) = some (10, [1, 2]) := by decide
 
 end OLP.Props.C10
